@@ -172,7 +172,7 @@ theorem eventsOk_succ {f : Nat} (hS : SeqOk f) (hM : MapOk f) : EventsOk (f + 1)
   cases src with
   | scalar v tag rt st a l =>
     rw [pendingFromEvents]
-    by_cases hn : scalarIsNullish v st = true
+    by_cases hn : mergeScalarIsNull v st tag = true
     · simp [eflatten, sourceEntries, hn]
     · simp [eflatten, sourceEntries, hn]
   | map a l el es =>
@@ -223,7 +223,7 @@ theorem liveOk_succ {f : Nat} (hA : EventsOk f) (hS : SeqOk f) : LiveOk (f + 1) 
   | scalar v tag rt st a l =>
     simp only [eflatten, List.cons_append, List.nil_append] at h
     rw [pendingFromLive, peek_replay_of_drop cref h]
-    by_cases hn : scalarIsNullish v st = true
+    by_cases hn : mergeScalarIsNull v st tag = true
     · simp [eflatten, sourceEntries, hn, next_replay_of_drop cref h]
     · simp [sourceEntries, hn]
   | map a l el es =>
